@@ -101,14 +101,17 @@ class QFDriver:
         self.K, self.Err = QuotientFilter, QuotientFilterError
         self.case, self.ctx, self.P = case, ctx, P
         self.hf = None
-        if case.get("hash") == "sha":
+        if case.get("hash") in ("sha", "falsy_sha"):
             import hashlib
 
             def hf(key, depth=0):
                 kb = key.encode("utf-8") if isinstance(key, str) else bytes(key)
                 return int.from_bytes(hashlib.sha256(kb).digest()[:4], "big")
             self.hf = hf
-        self.hf_eff = self.hf or (lambda key, d=0: fnv_1a_32(key, 0))
+            if case["hash"] == "falsy_sha":
+                from ..gen import FalsyCallable
+                self.hf = FalsyCallable(hf)
+        self.hf_eff = self.hf if self.hf is not None else (lambda key, d=0: fnv_1a_32(key, 0))
         self.pool = [dk(k) for k in case.get("pool", [])] or ["a"]
         self.tops, self.lows = case["tops"], case["lows"]
         self.lb = LineBudget()
@@ -322,7 +325,7 @@ def case_strategy(tier, max_ops=60):
         return {
             "q": draw(st.sampled_from([3, 3, 3, 4, 4, 5])), "auto": draw(st.booleans()),
             "mlf": draw(st.sampled_from([None, None, None, 0.5, 0.95, 1.0, 0.25])),
-            "hash": draw(st.sampled_from(["default", "default", "sha"])),
+            "hash": draw(st.sampled_from(["default", "default", "sha", "falsy_sha"])),
             "tops": tops, "lows": lows, "pool": draw(gen.pool_st(2, 6)),
             "ops": [list(o) for o in draw(st.lists(st.one_of(*ops), min_size=4, max_size=max_ops))],
         }
